@@ -47,6 +47,7 @@ type zzvStState struct {
 	Closed map[string]bool
 	Rd     map[string]zzvRd
 	Fh     struct{ Pc string }
+	Pend   bool
 }
 
 // UnmarshalJSON decodes the compact positional encoding emitted by Stream.tla (operator Packed):
@@ -54,9 +55,10 @@ type zzvStState struct {
 //          delivered, lost], "b": [...], "fh": [pc, s, k, fin], "nf": nframes}
 func (s *zzvStState) UnmarshalJSON(b []byte) error {
 	var raw struct {
-		A  []any `json:"a"`
-		B  []any `json:"b"`
-		Fh []any `json:"fh"`
+		A    []any `json:"a"`
+		B    []any `json:"b"`
+		Fh   []any `json:"fh"`
+		Pend bool  `json:"pend"`
 	}
 	if err := json.Unmarshal(b, &raw); err != nil {
 		return err
@@ -77,6 +79,7 @@ func (s *zzvStState) UnmarshalJSON(b []byte) error {
 		s.Rd[n] = zzvRd{Pc: v[6].(string), Chunk: int(v[7].(float64)), Eof: v[8].(bool), Torn: v[9].(bool)}
 	}
 	s.Fh.Pc = raw.Fh[0].(string)
+	s.Pend = raw.Pend
 	return nil
 }
 
@@ -91,11 +94,16 @@ type zzvStProj struct {
 	Rd     map[string]string `json:"rd"`    // idle | blocked | ready
 	RdRes  map[string]string `json:"rdres"` // "" | eof | d<k>
 	Fh     string            `json:"fh"`
+	Pend   bool              `json:"pend"`  // the open of "a" is in the manager's pending-request table
+	NPend  int               `json:"npend"` // Manager.PendingCount()
 }
 
 func (s *zzvStState) proj() zzvStProj {
 	p := zzvStProj{St: s.St, Reg: s.Reg, Nbuf: map[string]int{}, Lfin: s.Lfin, Rfin: s.Rfin, Closed: s.Closed,
-		Rd: map[string]string{}, RdRes: map[string]string{}, Fh: s.Fh.Pc}
+		Rd: map[string]string{}, RdRes: map[string]string{}, Fh: s.Fh.Pc, Pend: s.Pend}
+	if s.Pend {
+		p.NPend = 1
+	}
 	for _, x := range zzvStreams {
 		p.Nbuf[x] = len(s.Buf[x])
 		p.Rd[x] = s.Rd[x].Pc
@@ -113,6 +121,7 @@ func (s *zzvStState) proj() zzvStProj {
 
 type zzvStAct struct {
 	Act   string          `json:"act"`
+	Kind  string          `json:"kind"`
 	S     string          `json:"s"`
 	Hd    bool            `json:"hd"`
 	Fin   bool            `json:"fin"`
@@ -156,6 +165,7 @@ type zzvRig struct {
 	str     map[string]*Stream
 	id      map[string]uint64
 	reqA    uint64
+	resA    <-chan *StreamOpenResult // what the dialer of "a" is told
 	ctx     context.Context
 	cancel  context.CancelFunc
 	rd      map[string]*zzvReader
@@ -216,6 +226,28 @@ func (r *zzvRig) takeCbs() []string {
 	return c
 }
 
+// openResult takes what the dialer of "a" has been told since the last call: none | ok | err | timeout | cancel | ...
+func (r *zzvRig) openResult() string {
+	select {
+	case x := <-r.resA:
+		switch {
+		case x == nil:
+			return "nil"
+		case x.Error == nil:
+			return "ok"
+		case strings.Contains(x.Error.Error(), "stream open failed"):
+			return "err"
+		case strings.Contains(x.Error.Error(), "timeout"):
+			return "timeout"
+		case strings.Contains(x.Error.Error(), "cancelled"):
+			return "cancel"
+		}
+		return "other:" + x.Error.Error()
+	default:
+		return "none"
+	}
+}
+
 func (r *zzvRig) nameOf(s *Stream) string {
 	for n, x := range r.str {
 		if x == s {
@@ -242,6 +274,12 @@ func zzvNewRig(t *testing.T) *zzvRig {
 	// "a": opened locally, waiting for its STREAM_OPEN_ACK
 	p := r.m.OpenStream(r.id["a"], remote, "example.org", 80, time.Hour)
 	r.reqA = p.RequestID
+	r.resA = p.ResultCh
+	// "x": a stream id that is not established and is numerically equal to the request id of a's pending open
+	r.id["x"] = r.reqA
+	if r.id["x"] == r.id["a"] || r.id["x"] == r.id["b"] {
+		t.Fatal("zzv: request id collides with an established stream id")
+	}
 	r.m.mu.RLock()
 	pend := r.m.pendingRequests[r.reqA]
 	r.m.mu.RUnlock()
@@ -381,6 +419,10 @@ func (r *zzvRig) project() zzvStProj {
 	if r.fhMid {
 		p.Fh = "mid"
 	}
+	r.m.mu.RLock()
+	_, p.Pend = r.m.pendingRequests[r.reqA]
+	r.m.mu.RUnlock()
+	p.NPend = r.m.PendingCount()
 	return p
 }
 
@@ -406,6 +448,27 @@ func (r *zzvRig) apply(a zzvStAct) (res string, chunk int, torn map[string]bool)
 		res = "ok"
 		if err != nil {
 			res = "error:" + err.Error()
+			if strings.Contains(err.Error(), "no pending request") {
+				res = "nopending"
+			}
+		} else if got := r.openResult(); got != "ok" {
+			res = "dialer-told:" + got
+		}
+	case "OpenFail":
+		switch a.Kind {
+		case "err":
+			r.do(func() { _ = r.m.HandleStreamOpenErr(r.reqA, 5, "refused") })
+		case "timeout":
+			r.do(func() { r.m.handleRequestTimeout(r.reqA) })
+		case "cancel":
+			r.do(func() { r.m.CancelPendingRequest(r.reqA) })
+		default:
+			r.t.Fatalf("zzv: OpenFail kind %q", a.Kind)
+		}
+		// the result is what the dialer of "a" is told
+		res = r.openResult()
+		if res == "none" {
+			res = "nopending"
 		}
 	case "FrameBegin":
 		var flags uint8
@@ -533,12 +596,21 @@ func (r *zzvRig) apply(a zzvStAct) (res string, chunk int, torn map[string]bool)
 				res = "bad-callbacks:" + strings.Join(cbs, ",")
 			}
 		}
+		// a close / reset never completes or fails an open
+		if got := r.openResult(); got != "none" {
+			res = "dialer-of-a-told:" + got
+		}
 		return
 	default:
 		r.t.Fatalf("zzv: unknown action %q", a.Act)
 	}
 	if cbs := r.takeCbs(); len(cbs) > 0 {
 		res = "unexpected-callbacks:" + strings.Join(cbs, ",")
+	}
+	if a.Act != "OpenAck" && a.Act != "OpenFail" {
+		if got := r.openResult(); got != "none" {
+			res = "dialer-of-a-told:" + got
+		}
 	}
 	return
 }
